@@ -1,52 +1,52 @@
-(* C18 - a request never outlives its timeout  (PARTIAL: logical clock; KNOWN FINDING for the sync client).
+(* C18 - a request never outlives its timeout  (PARTIAL: logical clock).
    Statements only; proofs in Proofs/TimingProofs.v over Model/Timing.v.  The model has a logical clock: what it
    cannot exhibit is scheduler latency, kernel timer granularity and GIL hand-over (measured by ./check C18 with a
-   slack).  Async client: one deadline (C18_async_deadline, C18_async_delivers).  Sync client: SO_RCVTIMEO is
-   re-armed by every skipped datagram, so the full statement is FALSE (C18_sync_refuted: k strays keep the call
-   waiting (k+1) timeouts); it holds when no stray datagram arrives (C18_sync_without_strays).  The finding is listed
-   in /verif/known_findings.json. *)
+   slack).  Both clients now have one deadline per call (C18_sync_deadline, C18_async_deadline, C18_delivers,
+   C18_with_strays).  [rearming_wait] is the receive loop of the pinned commit, which re-armed SO_RCVTIMEO for every
+   skipped datagram: C18_pinned_refuted shows why that violated the property (k strays kept the call waiting (k+1)
+   timeouts); it was repaired by a fix: commit recorded in /verif/known_findings.json. *)
 From GS Require Import Model.Base Model.Timing Proofs.TimingProofs.
 From Coq Require Import Sorted.
 
+Theorem C18_sync_deadline :
+  forall (T t0 : Z) (arr : list arrival), 0 <= T -> fst (sync_wait T t0 arr) <= t0 + T.
+Proof. exact sync_deadline. Qed.
+
 Theorem C18_async_deadline :
-  forall (T t0 : Z) (arr : list arrival), 0 <= T -> fst (async_wait (t0 + T) t0 arr) <= t0 + T.
+  forall (T t0 : Z) (arr : list arrival), 0 <= T -> fst (async_wait T t0 arr) <= t0 + T.
 Proof. exact async_deadline. Qed.
 
-Theorem C18_async_delivers :
-  forall (pre : list (Z * bool)) (D now t : Z) (post : list (Z * bool)), Forall (fun a : Z * bool => snd a = false) pre -> Forall (fun a : Z * bool => now <= fst a <= t) pre -> now <= t <= D -> StronglySorted (fun a b : Z * bool => fst a <= fst b) (pre ++ [(t, true)]) -> async_wait D now (pre ++ (t, true) :: post) = (t, true).
-Proof. exact async_delivers. Qed.
+Theorem C18_delivers :
+  forall (pre : list (Z * bool)) (T t0 t : Z) (post : list (Z * bool)), Forall (fun a : Z * bool => snd a = false) pre -> Forall (fun a : Z * bool => t0 <= fst a <= t) pre -> t0 <= t <= t0 + T -> StronglySorted (fun a b : Z * bool => fst a <= fst b) (pre ++ [(t, true)]) -> sync_wait T t0 (pre ++ (t, true) :: post) = (t, true) /\ async_wait T t0 (pre ++ (t, true) :: post) = (t, true).
+Proof. exact sync_delivers. Qed.
 
-Theorem C18_async_with_strays :
-  forall (k : nat) (T t0 gap : Z), 0 <= gap -> 0 <= T -> fst (async_wait (t0 + T) t0 (strays k t0 gap)) <= t0 + T.
-Proof. exact async_with_strays. Qed.
+Theorem C18_with_strays :
+  forall (k : nat) (T t0 gap : Z), 0 <= gap -> 0 <= T -> fst (sync_wait T t0 (strays k t0 gap)) <= t0 + T /\ fst (async_wait T t0 (strays k t0 gap)) <= t0 + T.
+Proof. exact deadline_with_strays. Qed.
 
-Theorem C18_sync_refuted :
-  forall (T t0 : Z) (k : nat), 0 < T -> exists arr : list (Z * bool), Forall (fun a : Z * bool => snd a = false) arr /\ fst (sync_wait T t0 arr) = t0 + Z.of_nat k * T + T.
-Proof. exact sync_deadline_refuted. Qed.
+Theorem C18_pinned_refuted :
+  forall (T t0 : Z) (k : nat), 0 < T -> exists arr : list (Z * bool), Forall (fun a : Z * bool => snd a = false) arr /\ fst (rearming_wait T t0 arr) = t0 + Z.of_nat k * T + T.
+Proof. exact rearming_deadline_refuted. Qed.
 
-Theorem C18_sync_without_strays :
-  forall (arr : list (Z * bool)) (T t0 : Z), 0 <= T -> Forall (fun a : Z * bool => snd a = true) arr -> fst (sync_wait T t0 arr) <= t0 + T.
-Proof. exact sync_deadline_without_strays. Qed.
+Theorem C18_pinned_without_strays :
+  forall (arr : list (Z * bool)) (T t0 : Z), 0 <= T -> Forall (fun a : Z * bool => snd a = true) arr -> fst (rearming_wait T t0 arr) <= t0 + T.
+Proof. exact rearming_deadline_without_strays. Qed.
 
-Theorem C18_sync_bound :
-  forall (arr : list arrival) (T now : Z), 0 <= T -> fst (sync_wait T now arr) <= now + T * (Z.of_nat (length arr) + 1).
-Proof. exact sync_wait_bound. Qed.
-
+Check C18_sync_deadline :
+  forall (T t0 : Z) (arr : list arrival), 0 <= T -> fst (sync_wait T t0 arr) <= t0 + T.
 Check C18_async_deadline :
-  forall (T t0 : Z) (arr : list arrival), 0 <= T -> fst (async_wait (t0 + T) t0 arr) <= t0 + T.
-Check C18_async_delivers :
-  forall (pre : list (Z * bool)) (D now t : Z) (post : list (Z * bool)), Forall (fun a : Z * bool => snd a = false) pre -> Forall (fun a : Z * bool => now <= fst a <= t) pre -> now <= t <= D -> StronglySorted (fun a b : Z * bool => fst a <= fst b) (pre ++ [(t, true)]) -> async_wait D now (pre ++ (t, true) :: post) = (t, true).
-Check C18_async_with_strays :
-  forall (k : nat) (T t0 gap : Z), 0 <= gap -> 0 <= T -> fst (async_wait (t0 + T) t0 (strays k t0 gap)) <= t0 + T.
-Check C18_sync_refuted :
-  forall (T t0 : Z) (k : nat), 0 < T -> exists arr : list (Z * bool), Forall (fun a : Z * bool => snd a = false) arr /\ fst (sync_wait T t0 arr) = t0 + Z.of_nat k * T + T.
-Check C18_sync_without_strays :
-  forall (arr : list (Z * bool)) (T t0 : Z), 0 <= T -> Forall (fun a : Z * bool => snd a = true) arr -> fst (sync_wait T t0 arr) <= t0 + T.
-Check C18_sync_bound :
-  forall (arr : list arrival) (T now : Z), 0 <= T -> fst (sync_wait T now arr) <= now + T * (Z.of_nat (length arr) + 1).
+  forall (T t0 : Z) (arr : list arrival), 0 <= T -> fst (async_wait T t0 arr) <= t0 + T.
+Check C18_delivers :
+  forall (pre : list (Z * bool)) (T t0 t : Z) (post : list (Z * bool)), Forall (fun a : Z * bool => snd a = false) pre -> Forall (fun a : Z * bool => t0 <= fst a <= t) pre -> t0 <= t <= t0 + T -> StronglySorted (fun a b : Z * bool => fst a <= fst b) (pre ++ [(t, true)]) -> sync_wait T t0 (pre ++ (t, true) :: post) = (t, true) /\ async_wait T t0 (pre ++ (t, true) :: post) = (t, true).
+Check C18_with_strays :
+  forall (k : nat) (T t0 gap : Z), 0 <= gap -> 0 <= T -> fst (sync_wait T t0 (strays k t0 gap)) <= t0 + T /\ fst (async_wait T t0 (strays k t0 gap)) <= t0 + T.
+Check C18_pinned_refuted :
+  forall (T t0 : Z) (k : nat), 0 < T -> exists arr : list (Z * bool), Forall (fun a : Z * bool => snd a = false) arr /\ fst (rearming_wait T t0 arr) = t0 + Z.of_nat k * T + T.
+Check C18_pinned_without_strays :
+  forall (arr : list (Z * bool)) (T t0 : Z), 0 <= T -> Forall (fun a : Z * bool => snd a = true) arr -> fst (rearming_wait T t0 arr) <= t0 + T.
+Print Assumptions C18_sync_deadline.
 Print Assumptions C18_async_deadline.
-Print Assumptions C18_async_delivers.
-Print Assumptions C18_async_with_strays.
-Print Assumptions C18_sync_refuted.
-Print Assumptions C18_sync_without_strays.
-Print Assumptions C18_sync_bound.
+Print Assumptions C18_delivers.
+Print Assumptions C18_with_strays.
+Print Assumptions C18_pinned_refuted.
+Print Assumptions C18_pinned_without_strays.
